@@ -164,7 +164,11 @@ func (v Value) IsNaN() bool {
 		return false
 	}
 
-	return math.IsNaN(v.float64())
+	result := false
+	_ = catchPanic(func() { //nolint:errcheck
+		result = math.IsNaN(v.float64())
+	})
+	return result
 }
 
 // IsString will return true if value is a string (primitive).
